@@ -35,7 +35,7 @@ Proof. intros s c. destruct c; cbn [WriterFacts.target call_dots call_name]; rew
 
 Theorem C01_structure : forall enc0 ver s0 cs orc chunk,
   writer_init enc0 ver = (s0, Ok tt) -> enc_ok enc0 ->
-  Forall call_good' cs -> accepted s0 cs -> guesses_ok s0 cs -> oracle_ok orc cs ->
+  Forall call_good cs -> accepted s0 cs -> guesses_ok s0 cs -> oracle_ok orc cs ->
   0 < chunk -> (Z.of_nat (length (w_out (snd (run_calls s0 cs)))) <= sys_maxsize)%Z ->
   let rs := fst (read_all orc chunk (w_out (snd (run_calls s0 cs)))) in
   snd (read_all orc chunk (w_out (snd (run_calls s0 cs)))) = TEnd /\
@@ -69,10 +69,10 @@ Definition content_matches (c : call) (p : payload) : Prop :=
   | _ => True
   end.
 
-Lemma payload_matches : forall s s' c line, call_good' c -> do_call c s = (s', Ok tt) ->
+Lemma payload_matches : forall s s' c line, call_good c -> do_call c s = (s', Ok tt) ->
   content_matches c (r_payload (expected_record_of s line c)).
 Proof.
-  intros s s' c line [Hg _] Hcall. unfold expected_record_of, expected_record. cbn [r_payload].
+  intros s s' c line Hg Hcall. unfold expected_record_of, expected_record. cbn [r_payload].
   destruct c as [e|e|text enc ind le mt|md enc fmt|content dt enc le]; cbn [call_good] in Hg; try reflexivity.
   - destruct text; cbn [content_matches call_payload]; try exact I.
     destruct Hg as (_ & _ & Hle).
@@ -103,7 +103,7 @@ Qed.
 
 Theorem C01_content : forall enc0 ver s0 cs orc chunk,
   writer_init enc0 ver = (s0, Ok tt) -> enc_ok enc0 ->
-  Forall call_good' cs -> accepted s0 cs -> guesses_ok s0 cs -> oracle_ok orc cs ->
+  Forall call_good cs -> accepted s0 cs -> guesses_ok s0 cs -> oracle_ok orc cs ->
   0 < chunk -> (Z.of_nat (length (w_out (snd (run_calls s0 cs)))) <= sys_maxsize)%Z ->
   exists r0 rs, fst (read_all orc chunk (w_out (snd (run_calls s0 cs)))) = r0 :: rs /\
                 r_payload r0 = PNone /\ Forall2 content_matches cs (map r_payload rs).
@@ -206,7 +206,7 @@ Qed.
 
 Theorem C01_options : forall enc0 ver s0 cs orc chunk,
   writer_init enc0 ver = (s0, Ok tt) -> enc_ok enc0 ->
-  Forall call_good' cs -> accepted s0 cs -> guesses_ok s0 cs -> oracle_ok orc cs ->
+  Forall call_good cs -> accepted s0 cs -> guesses_ok s0 cs -> oracle_ok orc cs ->
   0 < chunk -> (Z.of_nat (length (w_out (snd (run_calls s0 cs)))) <= sys_maxsize)%Z ->
   exists r0 rs, fst (read_all orc chunk (w_out (snd (run_calls s0 cs)))) = r0 :: rs /\
     r_opts r0 = expected_opts (main_opts enc0 ver) /\
@@ -286,7 +286,7 @@ Qed.
 
 Theorem C01_round_trip_aligned : forall enc0 ver s0 cs orc chunk,
   writer_init enc0 ver = (s0, Ok tt) -> enc_aligned enc0 ->
-  Forall call_good' cs -> Forall (fun c => enc_aligned (call_enc c)) cs -> accepted s0 cs -> oracle_ok orc cs ->
+  Forall call_good cs -> Forall (fun c => enc_aligned (call_enc c)) cs -> accepted s0 cs -> oracle_ok orc cs ->
   0 < chunk -> (Z.of_nat (length (w_out (snd (run_calls s0 cs)))) <= sys_maxsize)%Z ->
   read_all orc chunk (w_out (snd (run_calls s0 cs))) = (main_record enc0 ver :: expected_records s0 1 cs, TEnd).
 Proof.
@@ -305,4 +305,48 @@ Proof.
   destruct (render_header _ _) as [h|err]; [|inversion Hinit]. cbv zeta in Hinit.
   inversion Hinit. cbn [w_stack length Nat.sub skipn hd].
   constructor; [destruct (wv_truthy enc0); exact He|]. constructor; [exact He|constructor].
+Qed.
+
+(* ------------------------------------------------------------------------------------------------ *)
+(* call sequences with rejected calls in between: a rejected call writes nothing and changes nothing (C09), so
+   the output is that of the accepted calls alone *)
+
+Fixpoint ok_calls (s : wstate) (cs : list call) : list call :=
+  match cs with
+  | [] => []
+  | c :: t => match do_call c s with
+              | (s', Ok _) => c :: ok_calls s' t
+              | (s', Err _) => ok_calls s' t
+              end
+  end.
+
+Lemma ok_calls_run : forall cs s, WriterFacts.reachable s ->
+  snd (run_calls s cs) = snd (run_calls s (ok_calls s cs)) /\ accepted s (ok_calls s cs).
+Proof.
+  induction cs as [|c t IH]; intros s Hs; [split; [reflexivity|constructor]|].
+  cbn [ok_calls]. destruct (do_call c s) as [s' r] eqn:E.
+  pose proof (WriterFacts.reachable_step c s s' r Hs E) as Hs'.
+  destruct r as [[]|e].
+  - destruct (IH s' Hs') as [H1 H2]. rewrite !WriterFacts.run_calls_cons. cbn [snd]. rewrite E. cbn [fst]. split; [exact H1|].
+    unfold accepted. rewrite WriterFacts.run_calls_cons. cbn [fst]. rewrite E. cbn [fst snd]. constructor; [reflexivity|exact H2].
+  - pose proof (WriterFacts.C09_atomic s Hs c s' e E) as ->.
+    rewrite WriterFacts.run_calls_cons. cbn [snd]. rewrite E. cbn [fst]. apply IH. exact Hs.
+Qed.
+
+Lemma ok_calls_Forall : forall (P : call -> Prop) cs s, Forall P cs -> Forall P (ok_calls s cs).
+Proof.
+  intros P. induction cs as [|c t IH]; intros s H; [constructor|]. inversion H; subst. cbn [ok_calls].
+  destruct (do_call c s) as [s' [u|e]]; [constructor; [assumption|]|]; apply IH; assumption.
+Qed.
+
+Theorem C01_round_trip_mixed : forall enc0 ver s0 cs orc chunk,
+  writer_init enc0 ver = (s0, Ok tt) -> enc_ok enc0 ->
+  Forall call_good cs -> guesses_ok s0 (ok_calls s0 cs) -> oracle_ok orc cs ->
+  0 < chunk -> (Z.of_nat (length (w_out (snd (run_calls s0 cs)))) <= sys_maxsize)%Z ->
+  read_all orc chunk (w_out (snd (run_calls s0 cs)))
+  = (main_record enc0 ver :: expected_records s0 1 (ok_calls s0 cs), TEnd).
+Proof.
+  intros enc0 ver s0 cs orc chunk Hinit He Hg Hgs Horc Hchunk Hsize.
+  destruct (ok_calls_run cs s0 (WriterFacts.reachable_init _ _ _ Hinit)) as [Hrun Hacc].
+  rewrite Hrun in *. apply C01_round_trip; try assumption; apply ok_calls_Forall; assumption.
 Qed.
